@@ -18,6 +18,9 @@ type c06scn struct {
 	name  string
 	files map[string]string
 	cfg   core.M
+	// refused: the configuration is one mockery must refuse; the refusal (exit status, nothing written) is what
+	// has to be the same under every order
+	refused bool
 }
 
 func goIface(pkg string, names ...string) string {
@@ -43,7 +46,7 @@ func c06scenarios(probe string) []c06scn {
 		cfg := testifyRoot()
 		cfg["all"] = true
 		cfg["packages"] = core.M{P("a"): core.M{}, P("b"): core.M{}, P("c"): core.M{"config": core.M{"template": "matryer", "formatter": "goimports"}}}
-		out = append(out, c06scn{"three packages, all, two templates", map[string]string{"a/a.go": goIface("a", "A1", "A2"), "b/b.go": goIface("b", "B1", "B2", "B3"), "c/c.go": goIface("c", "C1")}, cfg})
+		out = append(out, c06scn{"three packages, all, two templates", map[string]string{"a/a.go": goIface("a", "A1", "A2"), "b/b.go": goIface("b", "B1", "B2", "B3"), "c/c.go": goIface("c", "C1")}, cfg, false})
 	}
 	{ // configs entries into shared and distinct files
 		cfg := testifyRoot()
@@ -52,7 +55,7 @@ func c06scenarios(probe string) []c06scn {
 			"A2": core.M{"configs": []any{core.M{"structname": "M3", "filename": "shared_test.go"}, core.M{"structname": "M4", "filename": "shared_test.go"}}},
 			"A3": core.M{},
 		}}}
-		out = append(out, c06scn{"two configs per interface into shared and own files", map[string]string{"a/a.go": goIface("a", "A1", "A2", "A3")}, cfg})
+		out = append(out, c06scn{"two configs per interface into shared and own files", map[string]string{"a/a.go": goIface("a", "A1", "A2", "A3")}, cfg, false})
 	}
 	tree := map[string]string{
 		"p/p.go": goIface("p", "PI"), "p/q/q.go": goIface("q", "QI"), "p/q/r/r.go": goIface("r", "RI"), "p/s/s.go": goIface("s", "SI"),
@@ -64,7 +67,7 @@ func c06scenarios(probe string) []c06scn {
 			P("p"):   core.M{"config": core.M{"recursive": true, "all": true, "structname": "P_{{.InterfaceName}}"}},
 			P("p/q"): core.M{"config": core.M{"recursive": true, "all": true, "structname": "Q_{{.InterfaceName}}"}},
 		}
-		out = append(out, c06scn{"nested recursive packages", tree, cfg})
+		out = append(out, c06scn{"nested recursive packages", tree, cfg, false})
 	}
 	{ // overlapping recursive roots with exclusion
 		cfg := probeRoot()
@@ -73,7 +76,7 @@ func c06scenarios(probe string) []c06scn {
 			P("p/q"):   core.M{"config": core.M{"recursive": true, "all": true, "structname": "Q_{{.InterfaceName}}"}},
 			P("p/q/r"): core.M{"config": core.M{"all": true, "structname": "R_{{.InterfaceName}}"}},
 		}
-		out = append(out, c06scn{"overlapping recursive roots, exclusion, pre-configured leaf", tree, cfg})
+		out = append(out, c06scn{"overlapping recursive roots, exclusion, pre-configured leaf", tree, cfg, false})
 	}
 	{ // recursive at root level + pre-configured descendant with listed interface
 		cfg := probeRoot()
@@ -83,7 +86,7 @@ func c06scenarios(probe string) []c06scn {
 			P("p"):   core.M{"config": core.M{"structname": "P_{{.InterfaceName}}"}},
 			P("p/q"): core.M{"config": core.M{"all": false}, "interfaces": core.M{"QI": core.M{"config": core.M{"structname": "Listed_{{.InterfaceName}}"}}}},
 		}
-		out = append(out, c06scn{"root-level recursive, pre-configured descendant", tree, cfg})
+		out = append(out, c06scn{"root-level recursive, pre-configured descendant", tree, cfg, false})
 	}
 	{ // shared nested template-data with overrides at several levels, plus a recursive merge
 		cfg := probeRoot()
@@ -99,12 +102,12 @@ func c06scenarios(probe string) []c06scn {
 		for k, v := range tree {
 			files[k] = v
 		}
-		out = append(out, c06scn{"nested template-data at four levels and through recursion", files, cfg})
+		out = append(out, c06scn{"nested template-data at four levels and through recursion", files, cfg, false})
 	}
 	{ // mocks written below a recursive root as a regular package
 		cfg := testifyRoot()
 		cfg["packages"] = core.M{P("p"): core.M{"config": core.M{"recursive": true, "all": true, "dir": "{{.InterfaceDir}}/mocks", "pkgname": "mocks", "filename": "mocks.go"}}}
-		out = append(out, c06scn{"mock packages below a recursive root (all: true)", map[string]string{"p/p.go": goIface("p", "PI"), "p/q/q.go": goIface("q", "QI", "QJ")}, cfg})
+		out = append(out, c06scn{"mock packages below a recursive root (all: true)", map[string]string{"p/p.go": goIface("p", "PI"), "p/q/q.go": goIface("q", "QI", "QJ")}, cfg, false})
 	}
 	{ // several imports with the same package name
 		cfg := testifyRoot()
@@ -115,7 +118,7 @@ func c06scenarios(probe string) []c06scn {
 			"x/v1/t.go": "package v1\n\ntype T struct{}\n", "y/v1/t.go": "package v1\n\ntype T struct{}\n", "z/v1/t.go": "package v1\n\ntype T struct{}\n",
 			"use/use.go": "package use\n\nimport (\n\tx \"example.com/m/x/v1\"\n\ty \"example.com/m/y/v1\"\n\tz \"example.com/m/z/v1\"\n)\n\ntype U1 interface {\n\tA(a z.T, b x.T) y.T\n\tB(m map[x.T]z.T) []y.T\n}\n\ntype U2 interface{ C(y.T) (x.T, z.T) }\n",
 		}
-		out = append(out, c06scn{"three imports sharing a package name", files, cfg})
+		out = append(out, c06scn{"three imports sharing a package name", files, cfg, false})
 	}
 	{ // templated parameters that refer to each other through StructName and functions: the fix-point loop
 		// visits them in map order
@@ -125,7 +128,7 @@ func c06scenarios(probe string) []c06scn {
 		cfg["dir"] = "{{.InterfaceDir}}/{{.StructName | trimPrefix \"Mock\"}}"
 		cfg["pkgname"] = "litpkg" // an unchanged literal among values that still change
 		cfg["packages"] = core.M{P("a"): core.M{}, P("b"): core.M{"config": core.M{"structname": "{{.Mock}}{{.InterfaceName}}X"}, "interfaces": core.M{"B1": core.M{"config": core.M{"structname": "Lit"}}}}}
-		out = append(out, c06scn{"templated values referring to each other", map[string]string{"a/a.go": goIface("a", "A1", "aLow"), "b/b.go": goIface("b", "B1", "B2")}, cfg})
+		out = append(out, c06scn{"templated values referring to each other", map[string]string{"a/a.go": goIface("a", "A1", "aLow"), "b/b.go": goIface("b", "B1", "B2")}, cfg, false})
 	}
 	{ // recursive siblings whose paths sort around '/'
 		cfg := probeRoot()
@@ -137,7 +140,7 @@ func c06scenarios(probe string) []c06scn {
 		}
 		files := map[string]string{"svc/s.go": goIface("svc", "S"), "svc/store/s.go": goIface("store", "St"), "svc/store/cache/c.go": goIface("cache", "Ca"), "svc-api/a.go": goIface("api", "Ap"), "svc-api/v2/a.go": goIface("v2", "Ap2"),
 			"svc.d/d.go": goIface("d", "D"), "svc.d/e/e.go": goIface("e", "E")}
-		out = append(out, c06scn{"recursive packages whose paths sort around the separator", files, cfg})
+		out = append(out, c06scn{"recursive packages whose paths sort around the separator", files, cfg, false})
 	}
 	{ // packages sharing one custom template and schema, with per-package validation settings: what is decided for
 		// one output file (validate or not, which schema) must not depend on which file was produced first
@@ -152,7 +155,7 @@ func c06scenarios(probe string) []c06scn {
 			P("c"): core.M{"config": core.M{"require-template-schema-exists": false, "template-data": core.M{"also-not-in-schema": "x"}}},
 			P("d"): core.M{"config": core.M{"require-template-schema-exists": true}},
 		}
-		out = append(out, c06scn{"shared custom template and schema, validation switched off for some packages", map[string]string{"a/a.go": goIface("a", "A1"), "b/b.go": goIface("b", "B1", "B2"), "c/c.go": goIface("c", "C1"), "d/d.go": goIface("d", "D1")}, cfg})
+		out = append(out, c06scn{"shared custom template and schema, validation switched off for some packages", map[string]string{"a/a.go": goIface("a", "A1"), "b/b.go": goIface("b", "B1", "B2"), "c/c.go": goIface("c", "C1"), "d/d.go": goIface("d", "D1")}, cfg, false})
 	}
 	{ // in-package mocks in a NON-test file: on the second run mockery's own previous output is part of the source
 		// package it loads; parameters named like the declarations it generates must come out the same both times
@@ -164,7 +167,7 @@ func c06scenarios(probe string) []c06scn {
 		src := func(pkg string) string {
 			return "package " + pkg + "\n\ntype Store interface {\n\tGet(MockStore int, NewMockStore string, MockStore_Expecter bool) (MockStore_Get_Call error)\n\tPut(mockConstructorTestingTNewMockStore int, StoreMock string)\n}\n\ntype Other interface{ Do(MockOther, NewMockOther int) }\n"
 		}
-		out = append(out, c06scn{"in-package mocks in a non-test file, parameters named like the generated declarations", map[string]string{"svc/s.go": src("svc"), "svc2/s.go": src("svc2")}, cfg})
+		out = append(out, c06scn{"in-package mocks in a non-test file, parameters named like the generated declarations", map[string]string{"svc/s.go": src("svc"), "svc2/s.go": src("svc2")}, cfg, false})
 	}
 	{ // one output file per interface: whatever state is kept between files (import registries, qualifiers,
 		// reserved names) must not leak from the files rendered earlier, in whatever order they are visited
@@ -179,7 +182,7 @@ func c06scenarios(probe string) []c06scn {
 				"type UsesX interface{ A(a x.T) x.T }\n\ntype UsesY interface{ B(b y.T) y.T }\n\ntype Plain interface{ C(v10 int, url0 string) (url1 error) }\n"
 		}
 		files := map[string]string{"x/v1/t.go": "package v1\n\ntype T struct{}\n", "y/v1/t.go": "package v1\n\ntype T struct{}\n", "use/use.go": src("use"), "use2/use.go": src("use2")}
-		out = append(out, c06scn{"one file per interface, imports and parameter names that collide across files", files, cfg})
+		out = append(out, c06scn{"one file per interface, imports and parameter names that collide across files", files, cfg, false})
 	}
 	{ // ONE type expression that mentions several packages of the same name, none of them imported earlier in the
 		// file (one output file per interface): which package keeps the plain name and which gets the numbered alias
@@ -194,7 +197,22 @@ func c06scenarios(probe string) []c06scn {
 				"type MapKV interface{ B(m map[z.T]x.T) }\n\ntype FuncSig interface{ C(f func(y.T, z.T) (x.T, error)) }\n\ntype Nested interface{ D() map[y.T][]func(x.T) z.T }\n\ntype StructF interface{ E(s struct{ A z.T; B y.T; C x.T }) }\n"
 		}
 		files := map[string]string{"x/v1/t.go": "package v1\n\ntype T struct{}\n", "y/v1/t.go": "package v1\n\ntype T struct{}\n", "z/v1/t.go": "package v1\n\ntype T struct{}\n", "use/use.go": src("use"), "use2/use.go": src("use2")}
-		out = append(out, c06scn{"one type expression mentioning three same-named packages, one file per interface", files, cfg})
+		out = append(out, c06scn{"one type expression mentioning three same-named packages, one file per interface", files, cfg, false})
+	}
+	{ // several source packages OF THE SAME NAME (different import paths) resolving to one output file: refused, under
+		// every order, with nothing written
+		cfg := testifyRoot()
+		cfg["all"] = true
+		cfg["dir"], cfg["pkgname"], cfg["filename"] = "mocks", "mocks", "mock_{{.InterfaceName}}.go"
+		pkgs := core.M{}
+		files := map[string]string{}
+		for k := 1; k <= 5; k++ {
+			pn := fmt.Sprintf("store/v%d", k)
+			pkgs[P(pn)] = core.M{}
+			files[pn+"/s.go"] = fmt.Sprintf("package store\n\ntype Store interface{ Get%d(k string) int }\n", k)
+		}
+		cfg["packages"] = pkgs
+		out = append(out, c06scn{name: "five same-named source packages resolving to one output file (must be refused)", files: files, cfg: cfg, refused: true})
 	}
 	{ // many interfaces per source file and per output file, several packages: the order of the mocks inside a file
 		// is the declaration order, whatever order the packages were loaded or visited in
@@ -216,13 +234,13 @@ func c06scenarios(probe string) []c06scn {
 			files[pn+"/b.go"] = goIface(pn, names2...)
 		}
 		cfg["packages"] = pkgs
-		out = append(out, c06scn{"fifteen interfaces per package in two source files, four packages", files, cfg})
+		out = append(out, c06scn{"fifteen interfaces per package in two source files, four packages", files, cfg, false})
 	}
 	{ // every package profile of C08's composition oracle at once: both built-in templates and a custom one, all
 		// formatters, shared output package names, headers, schema settings, replace-type, recursion with exclusion
 		// lists, regex selection, same-named source packages, several output files per package
 		files, cfg := c08AllProfiles(filepath.Join(filepath.Dir(probe), "c08all"))
-		out = append(out, c06scn{"all composition profiles in one configuration", files, cfg})
+		out = append(out, c06scn{"all composition profiles in one configuration", files, cfg, false})
 	}
 	return out
 }
@@ -296,7 +314,11 @@ func C06(c *core.Ctx) error {
 		b := moRun(c, bin, baseM.Dir, nil, nil)
 		baseSnap := core.Snapshot(baseM.Dir)
 		base := obs{b.Res.Exit, core.HashSnapshot(baseSnap), baseSnap, firstN(b.Res.Stderr, 400)}
-		if base.exit != 0 || b.Res.Panicked() {
+		if s.refused && base.exit == 0 {
+			c.Report("baseline-accepted:"+s.name, fmt.Sprintf("scenario %q: mockery accepts a configuration it must refuse (sorted order)", s.name), map[string]any{"scenario": s.name, "files": files})
+			continue
+		}
+		if !s.refused && base.exit != 0 || b.Res.Panicked() {
 			c.Report("baseline:"+s.name, fmt.Sprintf("scenario %q: mockery exit %d with the sorted order: %s", s.name, base.exit, base.err), map[string]any{"scenario": s.name, "files": files})
 			continue
 		}
@@ -389,7 +411,7 @@ func C06(c *core.Ctx) error {
 			r := moRun(c, bin, baseM.Dir, nil, nil)
 			totalRuns++
 			snap := core.Snapshot(baseM.Dir)
-			if r.Res.Exit != 0 || core.HashSnapshot(snap) != base.hash {
+			if r.Res.Exit != base.exit || core.HashSnapshot(snap) != base.hash {
 				report(fmt.Sprintf("run%d-in-place", k+2), nil, obs{r.Res.Exit, "", snap, firstN(r.Res.Stderr, 300)}, base)
 			}
 		}
